@@ -59,6 +59,9 @@ pub enum TAct {
     Swap { user: String, from: usize, to: usize, amount: String },
     /// a swap or deposit whose message declares a tenth of a native reserve while one unit of it is attached
     Underfunded { user: String, what: String },
+    /// a swap offering (attached in full) a bank coin whose denom is spelled exactly like the contract address of the
+    /// pool's cw20 asset: it is not an asset of the pool
+    SwapAddrCoin { user: String, to: usize },
     Collect { user: String },
     SetFees { idx: usize },
     Ramp { kind: String, dblocks: u64 },
@@ -157,6 +160,20 @@ pub fn trio_swap(w: &mut World, t: &TrioH, user: &str, from: usize, to: usize, a
     }
 }
 
+/// ExecuteMsg::Swap offering `amount` bank coins whose denom is the contract address of the pool's cw20 asset `idx`
+pub fn addr_coin_swap(w: &mut World, t: &TrioH, user: &str, idx: usize, to: usize, amount: u128) -> Option<TxResult> {
+    let denom = match &t.assets[idx] {
+        AssetInfo::Token { contract_addr } => contract_addr.clone(),
+        _ => return None,
+    };
+    Some(w.exec(
+        user,
+        &t.addr,
+        &TrioExec::Swap { offer_asset: asset(&native(&denom), amount), ask_asset: t.assets[to].clone(), belief_price: loose_belief(), max_spread: Some(Decimal::percent(50)), to: None },
+        &[coin(amount, &denom)],
+    ))
+}
+
 pub fn d_raw(amp: u64, r: &[u128; 3]) -> U1024 {
     refmath::stable_d(amp, &[b(r[0]), b(r[1]), b(r[2])])
 }
@@ -169,6 +186,11 @@ impl TrioScn {
         for u in USERS.iter().chain([MALLORY].iter()) {
             for a in &assets {
                 fund(w, a, u, BIG_FUND);
+            }
+        }
+        for a in &assets {
+            if let AssetInfo::Token { contract_addr } = a {
+                w.mint_native(MALLORY, BIG_FUND, contract_addr);
             }
         }
         let trio = create_trio(w, &hub, assets, r.fees.trio(), r.amp).expect("create trio");
@@ -305,6 +327,9 @@ impl Scenario for TrioScn {
                     }
                 }
             }
+            if !c07 && matches!(h.trio.assets[2], AssetInfo::Token { .. }) {
+                v.push(TAct::SwapAddrCoin { user: MALLORY.to_string(), to: 0 });
+            }
             if !c07 {
                 v.push(TAct::Underfunded { user: BOB.to_string(), what: "swap".to_string() });
                 v.push(TAct::Underfunded { user: BOB.to_string(), what: "provide".to_string() });
@@ -421,6 +446,22 @@ impl Scenario for TrioScn {
                         cx.count("withdraw:rejected");
                         cx.note(|| format!("rejected: {}", e.msg()));
                     }
+                }
+            }
+            TAct::SwapAddrCoin { user, to } => {
+                let (res, _) = pre.unwrap();
+                let amt = (res[2] / 10).max(2);
+                let ub: Vec<u128> = t.assets.iter().map(|a| info_balance(w, a, user)).collect();
+                match addr_coin_swap(w, t, user, 2, *to, amt) {
+                    Some(Ok(_)) => {
+                        cx.count("addr_coin_swap:accepted");
+                        let ua: Vec<u128> = t.assets.iter().map(|a| info_balance(w, a, user)).collect();
+                        cx.check("swap.proceeds_only_for_pool_assets", (0..3).all(|i| ua[i] <= ub[i]), || {
+                            format!("a swap offering {} bank coins spelled like the address of the pool's cw20 asset (not a pool asset) was accepted and paid the sender: pool-asset balances {:?} -> {:?}", amt, ub, ua)
+                        });
+                    }
+                    Some(Err(_)) => cx.count("addr_coin_swap:rejected"),
+                    None => {}
                 }
             }
             TAct::Underfunded { user, what } => {
@@ -847,6 +888,24 @@ impl TrioScn {
     fn probe_sim(&self, w: &mut World, h: &TH, res: [u128; 3], cx: &mut Cx) {
         let t = &h.trio;
         let snap = w.kv_clone();
+        // an offer of a bank coin spelled like the address of the pool's cw20 asset: quote and execution agree (both refuse)
+        if let AssetInfo::Token { contract_addr } = &t.assets[2] {
+            let amt = (res[2] / 10).max(2);
+            for to in 0..2usize {
+                let sim: Result<SimulationResponse, String> = w.query(&t.addr, &TrioQuery::Simulation { offer_asset: asset(&native(contract_addr), amt), ask_asset: asset(&t.assets[to], 0) });
+                let ex = addr_coin_swap(w, t, MALLORY, 2, to, amt).unwrap();
+                cx.count("probe:sim_vs_exec:addr_coin");
+                let same = match (&sim, &ex) {
+                    (Err(_), Err(_)) => true,
+                    (Ok(s), Ok(resp)) => attr_u128(resp, Some(&t.addr), "swap", "return_amount") == Some(s.return_amount.u128()) && attr_u128(resp, Some(&t.addr), "swap", "spread_amount") == Some(s.spread_amount.u128()),
+                    _ => false,
+                };
+                cx.check("sim_eq_exec.same_outcome", same, || {
+                    format!("trio: offer of {} bank coins named like the cw20 asset, asking asset {}: simulation {:?} but execution {:?}", amt, to, sim, ex.as_ref().map(|r| (attr_u128(r, Some(&t.addr), "swap", "return_amount"), attr_u128(r, Some(&t.addr), "swap", "spread_amount"))).map_err(|e| e.msg().to_string()))
+                });
+                w.kv_restore(&snap);
+            }
+        }
         for from in 0..3usize {
             for to in 0..3usize {
                 if from == to {
